@@ -195,6 +195,8 @@ def _apply_member(path: str, f: dict) -> str:
             raw2 = b"\xff" * (5 + f["n"]) + raw[1:]
         elif kind == "m_bad_header":
             ln, p = iwa.read_varint(raw, 0)
+            if ln > len(raw):
+                return ""  # an earlier fault of the sequence already destroyed the header length
             junk = bytes((i * 37 + f["n"] * 11 + 0x80) & 0xFF for i in range(ln))
             raw2 = raw[:p] + junk + raw[p + ln :]
         elif kind == "m_msg_len_past_end":
